@@ -49,6 +49,7 @@ type Config struct {
 	MaxViol     int
 	ModulePath  string // functions of this module are recorded as "encoded"
 	Debug       bool
+	HarnessSec  int // wall-clock budget per harness (0 = none); overrun = inconclusive
 }
 
 type decision struct {
@@ -112,6 +113,7 @@ type HarnessResult struct {
 	Intrinsics   map[string]int
 	Distinct     map[uint64]bool
 	PathCapHit   bool
+	TimedOut     bool
 	Writes       []string
 }
 
@@ -1027,6 +1029,18 @@ func RunHarness(prog *ssa.Program, fn *ssa.Function, cfg *Config, sizes types.Si
 	}
 	var wg sync.WaitGroup
 	results := make([]*HarnessResult, nw)
+	if cfg.HarnessSec > 0 {
+		budget := time.AfterFunc(time.Duration(cfg.HarnessSec)*time.Second, func() {
+			mu.Lock()
+			if !stop {
+				total.TimedOut = true
+				stop = true
+			}
+			mu.Unlock()
+			cond.Broadcast()
+		})
+		defer budget.Stop()
+	}
 	curEx := make([]*Explorer, nw)
 	curStart := make([]time.Time, nw)
 	if os.Getenv("VERIF_PROGRESS") != "" {
